@@ -19,9 +19,9 @@ theorem rowOf_some {tb : List Row} {c : Nat} {row : Row} (h : rowOf tb c = some 
   simpa using this
 
 /-- Optional/Transitive bits of an octet whose masked form equals a registered FLAG. -/
-theorem bits_of_noExt (f g o t : Nat) (ho : o ≤ 1) (ht : t ≤ 1) (hg : g = f ∨ g = noPart f)
+theorem bits_of_noExt (f g o t : Nat) (ho : o ≤ 1) (ht : t ≤ 1) (hg : g = maskLow f ∨ g = noPart (maskLow f))
     (h : noExt g = o * 128 + t * 64) : f / 128 % 2 = o ∧ f / 64 % 2 = t := by
-  rcases hg with hg | hg <;> subst hg <;> simp only [noExt, noPart, b2n, beq_iff_eq] at h <;>
+  rcases hg with hg | hg <;> subst hg <;> simp only [noExt, noPart, maskLow, b2n, beq_iff_eq] at h <;>
     (repeat' split at h) <;> omega
 
 theorem flagsOk_of_registered (tb : List Row) (htb : ∀ r ∈ tb, rowOk r = true) (t : Tlv)
@@ -41,7 +41,7 @@ theorem flagsOk_of_registered (tb : List Row) (htb : ∀ r ∈ tb, rowOk r = tru
   | some ot =>
     obtain ⟨o, tt⟩ := ot
     simp only [hfs, beq_iff_eq] at hok1
-    have hg : effFlag tb t = t.flag ∨ effFlag tb t = noPart t.flag := by
+    have hg : effFlag tb t = maskLow t.flag ∨ effFlag tb t = noPart (maskLow t.flag) := by
       unfold effFlag; split <;> simp
     have hb := bits_of_noExt t.flag (effFlag tb t) (b2n o 1) (b2n tt 1)
       (by cases o <;> simp [b2n]) (by cases tt <;> simp [b2n]) hg
@@ -72,16 +72,13 @@ theorem class_discard_of_row {tb : List Row} (htb : TableOk tb) {row : Row} (hr 
   exact hok2
 
 theorem decide1_malformed {fx : Fix} {tb : List Row} {xp : XP} {present : List Nat} {t : Tlv}
-    (htb : TableOk tb) (hm : malformed xp.p t = true) (hg : GapFree fx tb xp t)
+    (htb : TableOk tb) (hm : malformed xp.p t = true) (hg : GapFree fx xp t)
     (hp : present.contains t.code = false) : DecOk t.code (decide1 fx tb xp present t) := by
   unfold decide1
-  by_cases ho : (fx.overrun && t.overrun) = true
+  by_cases ho : t.overrun = true
   · simp [ho, DecOk]
   · simp only [ho, Bool.false_eq_true, if_false]
-    have hov : t.overrun = false := by
-      rcases hg.1 with h | h
-      · simp [h] at ho; exact ho
-      · exact h
+    have hov : t.overrun = false := by simpa using ho
     have hwf : wfAttr xp.p t.code t.flag t.val = false := by
       simp only [malformed, hov, Bool.or_false, Bool.not_eq_true'] at hm; exact hm
     have hspec : t.code ∈ specCodes := by
@@ -104,7 +101,7 @@ theorem decide1_malformed {fx : Fix} {tb : List Row} {xp : XP} {present : List N
         cases hvo : valOutcome fx xp t.code t.val with
         | ok =>
           exfalso
-          have h1 := hg.2.1 hvo
+          have h1 := hg hvo
           have hne : mustNonEmpty.contains t.code = true → t.val ≠ [] := by
             intro hn
             have hok := htb.1 row hrmem
@@ -144,16 +141,12 @@ theorem decide1_malformed {fx : Fix} {tb : List Row} {xp : XP} {present : List N
       · by_cases hd : row.discard = true
         · simp only [hw, hd, Bool.false_eq_true, if_false, if_true, DecOk]
           rw [← hrid]; exact class_discard_of_row htb hrmem hrspec hd (by simpa using hw)
-        · simp only [hw, hd, Bool.false_eq_true, if_false]
-          rcases hg.2.2 with hf | hf
-          · simp [hf, DecOk]
-          · have := hf row hrow (by simpa using hreg)
-            simp [hw, hd] at this
+        · simp [hw, hd, DecOk]
 
 /-- An overrunning attribute is never kept once the length check is in (whatever else is wrong with it). -/
 theorem decide1_overrun (fx : Fix) (tb : List Row) (xp : XP) (present : List Nat) (t : Tlv)
-    (hf : fx.overrun = true) (ho : t.overrun = true) : decide1 fx tb xp present t = .taw := by
-  simp [decide1, hf, ho]
+    (ho : t.overrun = true) : decide1 fx tb xp present t = .taw := by
+  simp [decide1, ho]
 
 /-! ### the loop -/
 
@@ -247,7 +240,7 @@ theorem loop_malformed {fx : Fix} {tb : List Row} {xp : XP} (htb : TableOk tb)
     (pre : List Tlv) (t : Tlv) (post : List Tlv) (st0 st : LoopSt)
     (h : loop fx tb xp (pre ++ t :: post) st0 = .ok st)
     (hpre : ∀ u ∈ pre, u.code ≠ t.code) (hst0 : ∀ k ∈ st0.kept, k.code ≠ t.code)
-    (hm : malformed xp.p t = true) (hg : GapFree fx tb xp t) :
+    (hm : malformed xp.p t = true) (hg : GapFree fx xp t) :
     st.taw = true ∨
     (rfc7606Class t.code = some .discard ∧
       ∃ st', loop fx tb xp (pre ++ post) st0 = .ok st' ∧ st'.kept = st.kept ∧ st'.taw = st.taw) := by
